@@ -1392,6 +1392,241 @@ theorem count_held (g : Glyph) (x : Id) : g.held.count x = g.cnt x := by
   simp only [List.count_append, count_carried, count_stagedIds, Glyph.cnt]
   omega
 
+/-! ### shallow (lazily loaded) contours: loading them is invisible -/
+
+theorem Ex.discardAll {cnt cnt' : Id → Nat} {reg : List Id} (h : Ex cnt reg) (ids : List Id)
+    (hc : ∀ x, cnt' x + ids.count x = cnt x) : Ex cnt' (Ident.discardAll reg ids) := by
+  induction ids generalizing cnt reg with
+  | nil => exact h.same (by simpa using hc)
+  | cons y ys ih =>
+    have h1 := h.free (cnt' := fun x => cnt' x + ys.count x) (y := y)
+      (by intro x; have := hc x; rw [count_cons_cntO] at this; omega)
+    have : Ident.discardAll reg (y :: ys) = Ident.discardAll (reg.erase y) ys := by simp [Ident.discardAll]
+    rw [this]
+    exact ih h1.2 (fun _ => rfl)
+
+/-- the deepening pen's points: the record's points come out as they are, each identifier is registered -/
+theorem loadPoints_spec {cnt : Id → Nat} {reg : List Id} (h : Ex cnt reg) (acc ps : List Point)
+    {r : List Id × List Point} (hl : loadPoints reg acc ps = some r) :
+    r.2 = acc ++ ps ∧ Ex (fun x => cnt x + cntPts x ps) r.1 := by
+  induction ps generalizing cnt reg acc with
+  | nil =>
+    simp only [loadPoints, Option.some.injEq] at hl
+    subst hl
+    exact ⟨by simp, h.same (by intro x; simp [cntPts_nil])⟩
+  | cons p ps ih =>
+    unfold loadPoints at hl
+    split at hl
+    · rename_i hp
+      obtain ⟨h1, h2⟩ := ih h (acc ++ [p]) hl
+      refine ⟨by simp [h1], h2.same ?_⟩
+      intro x; simp only [cntPts_cons, hp, cntO_none]; omega
+    · rename_i y hp
+      split at hl
+      · cases hl
+      · rename_i hy
+        obtain ⟨h1, h2⟩ := ih (h.claim hy (fun _ => rfl)) (acc ++ [p]) hl
+        refine ⟨by simp [h1], h2.same ?_⟩
+        intro x; simp only [cntPts_cons, hp]; omega
+
+/-- … and it never rejects a point when nobody else holds the identifiers of the record -/
+theorem loadPoints_ok {cnt : Id → Nat} {reg : List Id} (h : Ex cnt reg) (acc ps : List Point)
+    (hle : ∀ x, cnt x + cntPts x ps ≤ 1) : ∃ r, loadPoints reg acc ps = some r := by
+  induction ps generalizing cnt reg acc with
+  | nil => exact ⟨_, rfl⟩
+  | cons p ps ih =>
+    unfold loadPoints
+    split
+    · rename_i hp
+      exact ih h _ (by intro x; have := hle x; simp only [cntPts_cons, hp, cntO_none] at this; omega)
+    · rename_i y hp
+      have hy : y ∉ reg := by
+        intro hm
+        have h1 := h.exact y
+        rw [ind_of_mem hm] at h1
+        have := hle y
+        simp only [cntPts_cons, hp, cntO_self] at this
+        omega
+      simp only [hy, if_false]
+      exact ih (h.claim hy (fun _ => rfl)) _
+        (by intro x; have := hle x; simp only [cntPts_cons, hp] at this; omega)
+
+theorem loadContour_spec {cnt : Id → Nat} {reg : List Id} (h : Ex cnt reg) (c : Contour)
+    {r : List Id × Contour} (hl : loadContour reg c = some r) :
+    r.2 = c ∧ Ex (fun x => cnt x + c.cnt x) r.1 := by
+  unfold loadContour at hl
+  split at hl
+  · rename_i hid
+    split at hl
+    · cases hl
+    · rename_i r' hr
+      simp only [Option.some.injEq] at hl
+      subst hl
+      obtain ⟨h1, h2⟩ := loadPoints_spec h [] c.pts hr
+      refine ⟨?_, h2.same ?_⟩
+      · cases c; simp_all
+      · intro x; simp only [Contour.cnt, hid, cntO_none]; omega
+  · rename_i y hid
+    split at hl
+    · cases hl
+    · rename_i hy
+      split at hl
+      · cases hl
+      · rename_i r' hr
+        simp only [Option.some.injEq] at hl
+        subst hl
+        obtain ⟨h1, h2⟩ := loadPoints_spec (h.claim hy (fun _ => rfl)) [] c.pts hr
+        refine ⟨?_, h2.same ?_⟩
+        · cases c; simp_all
+        · intro x; simp only [Contour.cnt, hid]; omega
+
+theorem loadContour_ok {cnt : Id → Nat} {reg : List Id} (h : Ex cnt reg) (c : Contour)
+    (hle : ∀ x, cnt x + c.cnt x ≤ 1) : ∃ r, loadContour reg c = some r := by
+  unfold loadContour
+  split
+  · rename_i hid
+    obtain ⟨r, hr⟩ := loadPoints_ok h [] c.pts
+      (by intro x; have := hle x; simp only [Contour.cnt, hid, cntO_none] at this; omega)
+    rw [hr]; exact ⟨_, rfl⟩
+  · rename_i y hid
+    have hy : y ∉ reg := by
+      intro hm
+      have h1 := h.exact y
+      rw [ind_of_mem hm] at h1
+      have := hle y
+      simp only [Contour.cnt, hid, cntO_self] at this
+      omega
+    simp only [hy, if_false]
+    obtain ⟨r, hr⟩ := loadPoints_ok (h.claim hy (fun _ => rfl)) [] c.pts
+      (by intro x; have := hle x; simp only [Contour.cnt, hid] at this; omega)
+    rw [hr]; exact ⟨_, rfl⟩
+
+theorem loadContours_spec {cnt : Id → Nat} {reg : List Id} (h : Ex cnt reg) (acc cs : List Contour)
+    {r : List Id × List Contour} (hl : loadContours reg acc cs = some r) :
+    r.2 = acc ++ cs ∧ Ex (fun x => cnt x + cntCs x cs) r.1 := by
+  induction cs generalizing cnt reg acc with
+  | nil =>
+    simp only [loadContours, Option.some.injEq] at hl
+    subst hl
+    exact ⟨by simp, h.same (by intro x; simp)⟩
+  | cons c cs ih =>
+    unfold loadContours at hl
+    split at hl
+    · cases hl
+    · rename_i r' hr
+      obtain ⟨h1, h2⟩ := loadContour_spec h c hr
+      obtain ⟨h3, h4⟩ := ih h2 (acc ++ [r'.2]) hl
+      refine ⟨by simp [h3, h1], h4.same ?_⟩
+      intro x; simp only [cntCs, List.map_cons, List.sum_cons]; omega
+
+theorem loadContours_ok {cnt : Id → Nat} {reg : List Id} (h : Ex cnt reg) (acc cs : List Contour)
+    (hle : ∀ x, cnt x + cntCs x cs ≤ 1) : ∃ r, loadContours reg acc cs = some r := by
+  induction cs generalizing cnt reg acc with
+  | nil => exact ⟨_, rfl⟩
+  | cons c cs ih =>
+    unfold loadContours
+    obtain ⟨r, hr⟩ := loadContour_ok h c
+      (by intro x; have := hle x; simp only [cntCs, List.map_cons, List.sum_cons] at this; omega)
+    rw [hr]
+    obtain ⟨_, h2⟩ := loadContour_spec h c hr
+    exact ih h2 _ (by intro x; have := hle x; simp only [cntCs, List.map_cons, List.sum_cons] at this ⊢; omega)
+
+/-- what remains of a container's count when its contours are set aside -/
+theorem cnt_split_contours (g : Glyph) (x : Id) :
+    ({ g with contours := [] } : Glyph).cnt x + (g.contours.flatMap Contour.ids).count x = g.cnt x := by
+  rw [← cntCs_eq_count]
+  simp only [Glyph.cnt, cntCs_nil]
+  omega
+
+/-- In a container that satisfies the invariant the deepening pen never rejects anything: the read access that
+loads shallow contours cannot raise. -/
+theorem deepen_never_rejects {g : Glyph} (h : Inv g) :
+    ∃ r, loadContours (discardAll g.reg (g.contours.flatMap Contour.ids)) [] g.contours = some r := by
+  have h0 := h.ex.discardAll (cnt' := ({ g with contours := [] } : Glyph).cnt) _ (cnt_split_contours g)
+  refine loadContours_ok h0 [] g.contours ?_
+  intro x
+  have h1 := cnt_split_contours g x
+  rw [← cntCs_eq_count] at h1
+  have := h.ex.le_one x
+  omega
+
+/-- `_fullyLoadShallowLoadedContours`: the same objects, the same identifiers registered (the registry may list
+them in another order), the invariant kept. -/
+theorem deepen_spec {g : Glyph} (h : Inv g) :
+    Inv (deepen g) ∧ deepen g = { g with shallow := false, reg := (deepen g).reg } ∧
+    ∀ x, x ∈ (deepen g).reg ↔ x ∈ g.reg := by
+  have key : Inv (deepen g) ∧ deepen g = { g with shallow := false, reg := (deepen g).reg } := by
+    unfold deepen
+    split
+    · obtain ⟨r, hr⟩ := deepen_never_rejects h
+      have h0 := h.ex.discardAll (cnt' := ({ g with contours := [] } : Glyph).cnt) _ (cnt_split_contours g)
+      obtain ⟨h1, h2⟩ := loadContours_spec h0 [] g.contours hr
+      simp only [hr]
+      rw [List.nil_append] at h1
+      refine ⟨Ex.inv (h2.same ?_), ?_⟩
+      · intro x
+        have := cnt_split_contours g x
+        rw [← cntCs_eq_count] at this
+        simp only [h1]
+        simp only [Glyph.cnt] at this ⊢
+        omega
+      · simp only [h1]
+    · rename_i hs
+      refine ⟨h, ?_⟩
+      cases g
+      simp only [Bool.not_eq_true] at hs
+      subst hs
+      rfl
+  refine ⟨key.1, key.2, fun x => ?_⟩
+  have e3 : (deepen g).cnt x = g.cnt x := by rw [key.2]; rfl
+  have e1 : ind (deepen g).reg x = ind g.reg x := by rw [← key.1.exact x, ← h.exact x, e3]
+  clear key e3
+  unfold ind at e1
+  constructor
+  · intro hm
+    by_cases hn : x ∈ g.reg
+    · exact hn
+    · simp [hm, hn] at e1
+  · intro hm
+    by_cases hn : x ∈ (deepen g).reg
+    · exact hn
+    · simp [hm, hn] at e1
+
+theorem inv_deepen {g : Glyph} (h : Inv g) : Inv (deepen g) := (deepen_spec h).1
+
+theorem deepen_cur (g : Glyph) : (deepen g).cur = g.cur := by
+  unfold deepen; split
+  · split <;> rfl
+  · rfl
+
+theorem deepen_of_loaded {g : Glyph} (h : g.shallow = false) : deepen g = g := by
+  unfold deepen; simp [h]
+
+theorem deepen_shallow (g : Glyph) : (deepen g).shallow = false := by
+  unfold deepen; split
+  · split <;> rfl
+  · rename_i h; simpa using h
+
+/-- `set_shallow_contours`: every identifier reserved so far is registered once more -/
+theorem Ex.reserve {cnt : Id → Nat} {reg : List Id} (done ids : List Id)
+    (h : Ex (fun x => cnt x + done.count x) reg) :
+    Ex (fun x => cnt x + (Ident.reserve reg done ids).2.1.count x) (Ident.reserve reg done ids).1 ∧
+    ((Ident.reserve reg done ids).2.2 = true → (Ident.reserve reg done ids).2.1 = done ++ ids) := by
+  induction ids generalizing reg done with
+  | nil => exact ⟨h, fun _ => by simp [Ident.reserve]⟩
+  | cons y ys ih =>
+    unfold Ident.reserve
+    split
+    · exact ⟨h, fun hf => by simp at hf⟩
+    · rename_i hy
+      have h1 : Ex (fun x => cnt x + (done ++ [y]).count x) (regAdd reg y) := by
+        refine h.claim hy ?_
+        intro x
+        simp only [List.count_append, count_cons_cntO, List.count_nil]
+        omega
+      obtain ⟨h2, h3⟩ := ih (done ++ [y]) h1
+      exact ⟨h2, fun hf => by rw [h3 hf]; simp⟩
+
 /-! ### staged objects -/
 
 theorem inv_abandon {g : Glyph} (h : Inv g) : Inv (abandon g) := by
@@ -1475,10 +1710,12 @@ theorem inv_penEnd {g : Glyph} (h : Inv g) : Inv (penEnd g).1 := by
   split
   · exact h
   · rename_i c hc
+    have hd := inv_deepen h
+    have hcur : (deepen g).cur = some c := by rw [deepen_cur]; exact hc
     apply Ex.inv
-    apply h.ex.same
+    apply hd.ex.same
     intro x
-    simp only [Glyph.cnt, hc, cntCur, cntCs_append, cntCs_single]
+    simp only [Glyph.cnt, hcur, cntCur, cntCs_append, cntCs_single]
     omega
 
 theorem inv_penPoints {g : Glyph} (h : Inv g) (skip : Bool) (ps : List Point) :
@@ -1740,36 +1977,59 @@ theorem inv_moveStK {g : Glyph} (h : Inv g) :
   simp only [Glyph.cnt, cntKs_append, cntKs_nil]
   omega
 
-theorem inv_deserialize {g : Glyph} (h : Inv g) (src : Glyph) : Inv (deserialize g src).1 := by
-  unfold deserialize
-  have hc := inv_clearGlyph h
+theorem inv_deserializeTail {g1 : Glyph} (h1' : Inv g1) (src : Glyph) (rm : Removed) :
+    Inv (deserializeTail g1 src rm).1 := by
+  unfold deserializeTail
+  have h2 := inv_stageAll stageComp (fun g a hg => inv_stageComp hg a) h1' src.comps
   try dsimp only
   split
-  · have h1 := inv_stageAll stageContour (fun g a hg => inv_stageContour hg a) hc src.contours
+  · rename_i g2 heq2; rw [heq2] at h2; exact inv_abandon h2
+  · rename_i g2 heq2; rw [heq2] at h2
+    have h2' := inv_moveStK h2
+    have h3 := inv_stageAll stageGuide (fun g a hg => inv_stageGuide hg a) h2' src.guides
+    try dsimp only
     split
-    · rename_i g1 heq; rw [heq] at h1; exact inv_abandon h1
-    · rename_i g1 heq; rw [heq] at h1
-      have h1' := inv_moveStC h1
-      have h2 := inv_stageAll stageComp (fun g a hg => inv_stageComp hg a) h1' src.comps
+    · rename_i g3 heq3; rw [heq3] at h3; exact inv_abandon h3
+    · rename_i g3 heq3; rw [heq3] at h3
+      have ha := inv_commitGuides h3
       try dsimp only
       split
-      · rename_i g2 heq2; rw [heq2] at h2; exact inv_abandon h2
-      · rename_i g2 heq2; rw [heq2] at h2
-        have h2' := inv_moveStK h2
-        have h3 := inv_stageAll stageGuide (fun g a hg => inv_stageGuide hg a) h2' src.guides
-        try dsimp only
+      · have h4 := inv_stageAll stageAnchor (fun g a hg => inv_stageAnchor hg a) ha src.anchors
         split
-        · rename_i g3 heq3; rw [heq3] at h3; exact inv_abandon h3
-        · rename_i g3 heq3; rw [heq3] at h3
-          have ha := inv_commitGuides h3
-          try dsimp only
-          split
-          · have h4 := inv_stageAll stageAnchor (fun g a hg => inv_stageAnchor hg a) ha src.anchors
-            split
-            · rename_i g4 heq4; rw [heq4] at h4; exact inv_abandon h4
-            · rename_i g4 heq4; rw [heq4] at h4
-              exact inv_commitAnchors h4
-          · exact ha
+        · rename_i g4 heq4; rw [heq4] at h4; exact inv_abandon h4
+        · rename_i g4 heq4; rw [heq4] at h4
+          exact inv_commitAnchors h4
+      · exact ha
+
+theorem inv_deserialize {g : Glyph} (h : Inv g) (src : Glyph) : Inv (deserialize g src).1 := by
+  unfold deserialize
+  have hc := inv_clearGlyph (inv_deepen h)
+  try dsimp only
+  split
+  · split
+    · -- the source is shallow: its records are taken over, their identifiers reserved one by one
+      have hr := Ex.reserve (cnt := (clearGlyph (deepen g)).1.cnt) (reg := (clearGlyph (deepen g)).1.reg) []
+        (src.contours.flatMap Contour.ids) (hc.ex.same (by intro x; simp))
+      split
+      · rename_i r done heq
+        rw [heq] at hr
+        apply Ex.inv
+        refine hr.1.same ?_
+        intro x
+        simp only [Glyph.cnt, List.count_append]
+        omega
+      · rename_i r done heq
+        rw [heq] at hr
+        have hd : done = src.contours.flatMap Contour.ids := by simpa using hr.2 rfl
+        refine inv_deserializeTail (Ex.inv (hr.1.same ?_)) src _
+        intro x
+        simp only [Glyph.cnt, cntCs_append, hd, cntCs_eq_count x src.contours]
+        omega
+    · have h1 := inv_stageAll stageContour (fun g a hg => inv_stageContour hg a) hc src.contours
+      split
+      · rename_i g1 heq; rw [heq] at h1; exact inv_abandon h1
+      · rename_i g1 heq; rw [heq] at h1
+        exact inv_deserializeTail (inv_moveStC h1) src _
   · exact hc
 
 theorem inv_fontDeserialize {g : Glyph} (h : Inv g) : Inv (fontDeserialize g).1 := by
@@ -1800,6 +2060,8 @@ theorem inv_readInto {g : Glyph} (h : Inv g) (d : Data) : Inv (readInto g d).1 :
       · exact inv_setAnchors ha _
     · exact ha
   · exact ho
+
+theorem inv_markShallow {g : Glyph} (h : Inv g) : Inv (markShallow g) := ⟨h.exact, h.nodup⟩
 
 theorem inv_reload {g : Glyph} (h : Inv g) (d : Data) : Inv (reload g d).1 := by
   unfold reload
@@ -1860,11 +2122,11 @@ theorem inv_of_eq3 {α β : Type} {f : Glyph × α × β} {g1 : Glyph} {a : α} 
 
 theorem winv_pushRemoved {w : World} (h : WInv w) (r : Removed) : WInv (w.pushRemoved r) := h
 
-theorem winv_step {w : World} (h : WInv w) (op : Op) : WInv (step w op).1 := by
+theorem winv_stepL {w : World} (h : WInv w) (op : Op) : WInv (stepL w op).1 := by
   cases op with
   | insContour t r c => exact winv_on h t _ (fun g hg => inv_insertContour hg _ _)
   | reinsContour t r k =>
-    simp only [step]
+    simp only [stepL]
     split
     · exact h
     · split
@@ -1874,74 +2136,74 @@ theorem winv_step {w : World} (h : WInv w) (op : Op) : WInv (step w op).1 := by
           exact winv_put h (inv_of_eq2 heq (inv_insertContour (winv_get h t) _ _)) t
         · exact h
   | rmContour t r =>
-    simp only [step]
+    simp only [stepL]
     split
     · exact h
     · split <;>
         (rename_i heq; exact winv_put h (inv_of_eq3 heq (inv_removeContour (winv_get h t) _)) t)
   | clearContours t =>
-    simp only [step]
+    simp only [stepL]
     exact winv_put h (inv_clearContours (winv_get h t) _) t
   | insPoint t rc rp p =>
-    simp only [step]
+    simp only [stepL]
     split
     · exact h
     · exact winv_on h t _ (fun g hg => inv_insertPoint hg _ _ _)
   | addPoint t rc p =>
-    simp only [step]
+    simp only [stepL]
     split
     · exact h
     · exact winv_on h t _ (fun g hg => inv_insertPoint hg _ _ _)
   | rmPoint t rc rp =>
-    simp only [step]
+    simp only [stepL]
     split
     · exact h
     · split
       · exact h
       · exact winv_on h t _ (fun g hg => inv_removePoint hg _ _)
   | clearContour t rc =>
-    simp only [step]
+    simp only [stepL]
     split
     · exact h
     · exact winv_on h t _ (fun g hg => inv_clearContour hg _)
   | reverse t rc =>
-    simp only [step]
+    simp only [stepL]
     split
     · exact h
     · exact winv_on h t _ (fun g hg => inv_reverse hg _)
   | rmSegment t rc rs preserve =>
-    simp only [step]
+    simp only [stepL]
     split
     · exact h
     · split
       · exact h
       · exact winv_on h t _ (fun g hg => inv_removeSegment hg _ _ _)
   | split t rc rs =>
-    simp only [step]
+    simp only [stepL]
     split
     · exact h
     · split
       · exact h
       · exact winv_on h t _ (fun g hg => inv_split hg _ _)
   | setStart t rc rp =>
-    simp only [step]
+    simp only [stepL]
     split
     · exact h
     · split
       · exact h
       · exact winv_on h t _ (fun g hg => inv_setStart hg _ _)
   | setContourId t rc v =>
-    simp only [step]
+    simp only [stepL]
     split
     · exact h
     · exact winv_on h t _ (fun g hg => inv_setContourId hg _ _)
   | genContourId t rc cands =>
-    simp only [step]
+    simp only [stepL]
     split
     · exact h
     · exact winv_on h t _ (fun g hg => inv_genContourId hg _ _)
   | genPointId t rc rp cands =>
-    simp only [step]
+    simp only [stepL]
     split
     · exact h
     · split
@@ -1949,7 +2211,7 @@ theorem winv_step {w : World} (h : WInv w) (op : Op) : WInv (step w op).1 := by
       · exact winv_on h t _ (fun g hg => inv_genPointId hg _ _ _)
   | insComp t r k => exact winv_on h t _ (fun g hg => inv_insertComp hg _ _)
   | reinsComp t r k =>
-    simp only [step]
+    simp only [stepL]
     split
     · exact h
     · split
@@ -1961,36 +2223,36 @@ theorem winv_step {w : World} (h : WInv w) (op : Op) : WInv (step w op).1 := by
             exact winv_put h (inv_of_eq2 heq (inv_insertComp (winv_get h t) _ _)) t
           · exact h
   | rmComp t r =>
-    simp only [step]
+    simp only [stepL]
     split
     · exact h
     · split <;>
         (rename_i heq; exact winv_put h (inv_of_eq3 heq (inv_removeComp (winv_get h t) _)) t)
   | clearComps t =>
-    simp only [step]
+    simp only [stepL]
     exact winv_put h (inv_clearComps (winv_get h t) _) t
   | setCompId t r v =>
-    simp only [step]
+    simp only [stepL]
     split
     · exact h
     · exact winv_on h t _ (fun g hg => inv_setCompId hg _ _)
   | genCompId t r cands =>
-    simp only [step]
+    simp only [stepL]
     split
     · exact h
     · exact winv_on h t _ (fun g hg => inv_genCompId hg _ _)
   | decompose t r =>
-    simp only [step]
+    simp only [stepL]
     split
     · exact h
     · split <;>
         (rename_i heq; exact winv_put h (inv_of_eq3 heq (inv_decompose _ (winv_get h t) _)) t)
   | decomposeAll t =>
-    simp only [step]
+    simp only [stepL]
     exact winv_put h (inv_decomposeAll _ (winv_get h t) _) t
   | insAnchor t r v d => exact winv_on h t _ (fun g hg => inv_insertAnchor hg _ _)
   | reinsAnchor t r k =>
-    simp only [step]
+    simp only [stepL]
     split
     · exact h
     · split
@@ -2000,30 +2262,30 @@ theorem winv_step {w : World} (h : WInv w) (op : Op) : WInv (step w op).1 := by
           exact winv_put h (inv_of_eq2 heq (inv_insertAnchor (winv_get h t) _ _)) t
         · exact h
   | rmAnchor t r =>
-    simp only [step]
+    simp only [stepL]
     split
     · exact h
     · split <;>
         (rename_i heq; exact winv_put h (inv_of_eq3 heq (inv_removeAnchor (winv_get h t) _)) t)
   | clearAnchors t =>
-    simp only [step]
+    simp only [stepL]
     exact winv_put h (inv_clearAnchors (winv_get h t) _) t
   | setAnchorId t r v =>
-    simp only [step]
+    simp only [stepL]
     split
     · exact h
     · exact winv_on h t _ (fun g hg => inv_setAnchorId hg _ _)
   | genAnchorId t r cands =>
-    simp only [step]
+    simp only [stepL]
     split
     · exact h
     · exact winv_on h t _ (fun g hg => inv_genAnchorId hg _ _)
   | setAnchors t vs =>
-    simp only [step]
+    simp only [stepL]
     exact winv_put h (inv_setAnchors (winv_get h t) _) t
   | insGuide t r v d => exact winv_on h t _ (fun g hg => inv_insertGuide hg _ _)
   | reinsGuide t r k =>
-    simp only [step]
+    simp only [stepL]
     split
     · exact h
     · split
@@ -2033,58 +2295,58 @@ theorem winv_step {w : World} (h : WInv w) (op : Op) : WInv (step w op).1 := by
           exact winv_put h (inv_of_eq2 heq (inv_insertGuide (winv_get h t) _ _)) t
         · exact h
   | rmGuide t r =>
-    simp only [step]
+    simp only [stepL]
     split
     · exact h
     · split <;>
         (rename_i heq; exact winv_put h (inv_of_eq3 heq (inv_removeGuide (winv_get h t) _)) t)
   | clearGuides t =>
-    simp only [step]
+    simp only [stepL]
     exact winv_put h (inv_clearGuides (winv_get h t) _) t
   | setGuideId t r v =>
-    simp only [step]
+    simp only [stepL]
     split
     · exact h
     · exact winv_on h t _ (fun g hg => inv_setGuideId hg _ _)
   | genGuideId t r cands =>
-    simp only [step]
+    simp only [stepL]
     split
     · exact h
     · exact winv_on h t _ (fun g hg => inv_genGuideId hg _ _)
   | setGuides t vs =>
-    simp only [step]
+    simp only [stepL]
     exact winv_put h (inv_setGuides (winv_get h t) _) t
   | limboSetId kind k v =>
-    simp only [step]
+    simp only [stepL]
     repeat' split
     all_goals exact h
   | limboGenId kind k cands =>
-    simp only [step]
+    simp only [stepL]
     repeat' split
     all_goals exact h
   | limboAddPoint k p =>
-    simp only [step]
+    simp only [stepL]
     repeat' split
     all_goals exact h
   | clearGlyph t =>
-    simp only [step]
+    simp only [stepL]
     exact winv_put h (inv_clearGlyph (winv_get h t)) t
   | draw t cs ks skip => exact winv_on h t _ (fun g hg => inv_drawOutline hg _ _ _)
   | drawFrom t src skip => exact winv_on h t _ (fun g hg => inv_drawOutline hg _ _ _)
   | copyFrom t src =>
-    simp only [step]
+    simp only [stepL]
     exact winv_put h (inv_copyFrom (winv_get h t) _) t
   | insertGlyph t src =>
-    simp only [step]
+    simp only [stepL]
     exact winv_put h (inv_copyFrom inv_empty _) t
   | roundtrip t =>
-    simp only [step]
+    simp only [stepL]
     exact winv_put h (inv_deserialize (winv_get h t) _) t
   | deserializeFrom t src =>
-    simp only [step]
+    simp only [stepL]
     exact winv_put h (inv_deserialize (winv_get h t) _) t
   | fontRoundtrip =>
-    simp only [step]
+    simp only [stepL]
     exact winv_put h (inv_fontDeserialize (winv_get h 3)) 3
   | instAnchor t v =>
     refine winv_on h t _ (fun g hg => ?_)
@@ -2099,18 +2361,19 @@ theorem winv_step {w : World} (h : WInv w) (op : Op) : WInv (step w op).1 := by
     · rename_i g1 heq; rw [heq] at h1; exact inv_abandon h1
     · rename_i g1 heq; rw [heq] at h1; exact h1
   | reload t d =>
-    simp only [step]
+    simp only [stepL]
     exact winv_put h (inv_reload (winv_get h t) _) t
   | reopen ds fg thenAnchor =>
-    simp only [step]
-    have h1 : WInv { w with conts := [(readInto {} (ds[0]?.getD {})).1, (readInto {} (ds[1]?.getD {})).1,
-        (readInto {} (ds[2]?.getD {})).1, (appendGuideDicts {} fg).1] } := by
+    simp only [stepL]
+    have h1 : WInv { w with conts := [markShallow (readInto {} (ds[0]?.getD {})).1,
+        markShallow (readInto {} (ds[1]?.getD {})).1, markShallow (readInto {} (ds[2]?.getD {})).1,
+        (appendGuideDicts {} fg).1] } := by
       intro g hg
       simp only [List.mem_cons, List.not_mem_nil, or_false] at hg
       rcases hg with rfl | rfl | rfl | rfl
-      · exact inv_readInto inv_empty _
-      · exact inv_readInto inv_empty _
-      · exact inv_readInto inv_empty _
+      · exact inv_markShallow (inv_readInto inv_empty _)
+      · exact inv_markShallow (inv_readInto inv_empty _)
+      · exact inv_markShallow (inv_readInto inv_empty _)
       · exact inv_appendGuideDicts inv_empty _
     split
     · exact h1
@@ -2118,25 +2381,42 @@ theorem winv_step {w : World} (h : WInv w) (op : Op) : WInv (step w op).1 := by
       · exact h1
       · exact winv_on h1 _ _ (fun g hg => inv_insertAnchor hg _ _)
   | rmAbsentPoint t rc =>
-    simp only [step]
+    simp only [stepL]
     repeat' split
     all_goals exact h
   | rmAbsent kind t k =>
-    simp only [step]
+    simp only [stepL]
     repeat' split
     all_goals exact h
   | rmForeign kind t src r =>
-    simp only [step]
+    simp only [stepL]
     repeat' split
     all_goals exact h
   | insAnchorBad t r v => exact h
   | insGuideBad t r v => exact h
   | setAnchorsBad t vs =>
-    simp only [step]
+    simp only [stepL]
     exact winv_put h (inv_setAnchors (winv_get h t) _) t
   | setGuidesBad t vs =>
-    simp only [step]
+    simp only [stepL]
     exact winv_put h (inv_setGuides (winv_get h t) _) t
+  | load t => exact h
+  | insertGlyphVia t src =>
+    simp only [stepL]
+    split
+    · exact winv_put h (inv_copyFrom inv_empty _) t
+    · exact h
+
+theorem winv_load {w : World} (h : WInv w) (t : Nat) : WInv (w.load t) :=
+  winv_put h (inv_deepen (winv_get h t)) t
+
+theorem winv_preload {w : World} (h : WInv w) (op : Op) : WInv (preload w op) := by
+  unfold preload
+  repeat' split
+  all_goals first | exact h | exact winv_load h _ | exact winv_load (winv_load h _) _
+
+theorem winv_step {w : World} (h : WInv w) (op : Op) : WInv (step w op).1 :=
+  winv_stepL (winv_preload h op) op
 
 theorem winv_run {w : World} (h : WInv w) (ops : List Op) : WInv (run w ops) := by
   induction ops generalizing w with
